@@ -10,7 +10,7 @@ SCHED_PATH = ("sched",)
 LEVEL = "exploration"
 QUICK_N = 320
 SCENARIO_TIMEOUT = 180
-PROBES = [p for p in pc.PROBES if p not in ['fold_without_accept', 'tied_raw_outputs']]
+PROBES = [p for p in pc.PROBES if p not in ['fold_without_accept', 'tied_raw_outputs', 'output_on_another_scale']]
 RULE = (
     "Seeded PSM data sets (1-3 files, 40-140 spectra each, 1-4 PSMs per spectrum, spectrum key of 1-4 columns, "
     "3 label encodings, text or Parquet) are parsed with read_pin and rescored with brew (folds 2-6, "
